@@ -27,6 +27,13 @@ pub struct Res {
     pub filler: u16,
     pub gated: bool,
     pub order: u8,
+    /// handshake role: producer raises `req` (and counts `sent`) when it is down, consumer
+    /// clears it (and counts `handled`) when it is up
+    #[serde(default)]
+    pub producer: bool,
+    /// value this resource writes to the shared BOOL `flag` in every cycle
+    #[serde(default)]
+    pub flag_val: bool,
 }
 
 #[derive(Clone, Debug, Serialize, Deserialize, PartialEq)]
@@ -79,6 +86,14 @@ pub struct Script {
     pub reps: u16,
 }
 
+/// Shared variables that do not only grow: last-writer id `w` with the writer's sequence number
+/// `ws` (written together), a BOOL `flag` that every resource sets to its own constant, and the
+/// handshake `req`/`sent`/`handled`. A resource writes them with values equal to what it wrote
+/// in its previous cycle, which a "publish only what changed" write-back would drop.
+pub const NON_MONOTONE: [&str; 6] = ["w", "ws", "flag", "req", "sent", "handled"];
+/// initial values in the order of NON_MONOTONE (BOOLs as 0/1)
+pub const NON_MONOTONE_INIT: [i64; 6] = [-1, 0, 0, 0, 0, 0];
+
 impl Script {
     pub fn manual(&self) -> bool {
         self.clock != 0
@@ -97,6 +112,9 @@ impl Script {
         for k in 0..self.pairs.len() {
             v.push(format!("a{k}"));
             v.push(format!("b{k}"));
+        }
+        for name in NON_MONOTONE {
+            v.push(name.to_string());
         }
         v
     }
@@ -215,6 +233,19 @@ pub fn script_from_tape(tape: &Tape, reps: u16) -> Script {
             _ => r.flag(),
         };
         let order = r.pick(4) as u8;
+        // roles: resource 0 produces and sets the flag, resource 1 consumes and clears it,
+        // the others are generated
+        let (producer, flag_val) = match i {
+            0 => {
+                let _ = (r.word(), r.word());
+                (true, true)
+            }
+            1 => {
+                let _ = (r.word(), r.word());
+                (false, false)
+            }
+            _ => (r.flag(), r.flag()),
+        };
         resources.push(Res {
             weights,
             pair_mask,
@@ -227,6 +258,8 @@ pub fn script_from_tape(tape: &Tape, reps: u16) -> Script {
             filler,
             gated,
             order,
+            producer,
+            flag_val,
         });
     }
     let any_gated = resources.iter().any(|x| x.gated);
@@ -367,6 +400,12 @@ pub fn script_from_tape(tape: &Tape, reps: u16) -> Script {
     }
 }
 
+/// Private DINT globals bound to %QD8.. : observed-at-start, left-at-end (order of
+/// NON_MONOTONE each) and the handshake invariant counter.
+pub const OBS: [&str; 13] = [
+    "ow", "ows", "oflag", "oreq", "osent", "ohandled", "ew", "ews", "eflag", "ereq", "esent", "ehandled", "hbad",
+];
+
 /// ST source run by resource `i`. Every resource declares the same configuration globals;
 /// only the names in `Script::shared_names()` are synchronised, the rest are private.
 /// Typed literals throughout: assignments keep the expression's type (finding F8).
@@ -381,7 +420,15 @@ pub fn source_for(s: &Script, i: usize) -> String {
     for (k, init) in s.pairs.iter().enumerate() {
         g.push_str(&format!("    a{k} : {ty} := {init};\n    b{k} : {ty} := {init};\n"));
     }
+    g.push_str("    w : DINT := -1;\n    ws : DINT := 0;\n    flag : BOOL := FALSE;\n    req : BOOL := FALSE;\n    sent : DINT := 0;\n    handled : DINT := 0;\n");
     g.push_str("END_VAR\nVAR_GLOBAL RETAIN\n    r : DINT := 0;\nEND_VAR\n");
+    // private copies of what the cycle saw at its start (o*) and left at its end (e*), and the
+    // handshake invariant counter, all in the output image for the I/O driver
+    g.push_str("VAR_GLOBAL\n");
+    for (k, name) in OBS.iter().enumerate() {
+        g.push_str(&format!("    {name} AT %QD{} : DINT := 0;\n", 8 + 4 * k));
+    }
+    g.push_str("END_VAR\n");
     g.push_str("VAR_GLOBAL\n    n AT %QD0 : DINT := 0;\n    bad AT %QD4 : DINT := 0;\n    zero : DINT := 0;\n    z : DINT := 0;\nEND_VAR\n");
     if res.task_us == 0 {
         g.push_str("PROGRAM P1 : Main;\n");
@@ -398,6 +445,10 @@ pub fn source_for(s: &Script, i: usize) -> String {
     for k in 0..s.pairs.len() {
         g.push_str(&format!("    a{k} : {ty};\n    b{k} : {ty};\n"));
     }
+    g.push_str("    w : DINT;\n    ws : DINT;\n    flag : BOOL;\n    req : BOOL;\n    sent : DINT;\n    handled : DINT;\n");
+    for name in OBS {
+        g.push_str(&format!("    {name} : DINT;\n"));
+    }
     g.push_str("    r : DINT;\n    n : DINT;\n    bad : DINT;\n    zero : DINT;\n    z : DINT;\nEND_VAR\nVAR\n    i : DINT;\n    tmp : DINT;\nEND_VAR\n");
     if let Some(k) = res.fault_at {
         g.push_str(&format!("IF n = DINT#{k} THEN z := DINT#1 / zero; END_IF;\n"));
@@ -405,6 +456,10 @@ pub fn source_for(s: &Script, i: usize) -> String {
     for k in 0..s.pairs.len() {
         g.push_str(&format!("IF a{k} <> b{k} THEN bad := bad + DINT#1; END_IF;\n"));
     }
+    // what this cycle starts from
+    g.push_str("ow := w;\nows := ws;\nIF flag THEN oflag := DINT#1; ELSE oflag := DINT#0; END_IF;\nIF req THEN oreq := DINT#1; ELSE oreq := DINT#0; END_IF;\nosent := sent;\nohandled := handled;\n");
+    // handshake invariant: a request is outstanding exactly while req is up
+    g.push_str("IF sent - handled <> oreq THEN hbad := hbad + DINT#1; END_IF;\n");
     let cnt: Vec<String> = res
         .weights
         .iter()
@@ -460,6 +515,15 @@ pub fn source_for(s: &Script, i: usize) -> String {
             g.push_str(&cnt.concat());
         }
     }
+    // non-monotone shared state: every value written here equals what this resource wrote in
+    // its previous cycle (w, flag, req) or is written together with such a value (ws)
+    g.push_str(&format!("w := DINT#{i};\nws := n + DINT#1;\nflag := {};\n", if res.flag_val { "TRUE" } else { "FALSE" }));
+    if res.producer {
+        g.push_str("IF NOT req THEN req := TRUE; sent := sent + DINT#1; END_IF;\n");
+    } else {
+        g.push_str("IF req THEN req := FALSE; handled := handled + DINT#1; END_IF;\n");
+    }
+    g.push_str("ew := w;\news := ws;\nIF flag THEN eflag := DINT#1; ELSE eflag := DINT#0; END_IF;\nIF req THEN ereq := DINT#1; ELSE ereq := DINT#0; END_IF;\nesent := sent;\nehandled := handled;\n");
     g.push_str("r := r + DINT#1;\nn := n + DINT#1;\nEND_PROGRAM\n");
     g
 }
